@@ -2,7 +2,8 @@
 (* code -> spec for the metrics: each event is one step of Metrics.tla's       *)
 (* cloud machine with the metric values (fixed point, scale S) measured by the *)
 (* code before and after the step, or one divergence measurement.               *)
-(*  step:  op, k (scale factor), d, vol0/vol1 (volume), w0/w1 (seeded mean     *)
+(*  step:  op, k (scale factor), dim (affine dimension of the cloud before the  *)
+(*         step), samedim, vol0/vol1 (volume within the span), w0/w1 (seeded   *)
 (*         width, same seed), g0/g1 (gamut metric relative to the base cloud)  *)
 (*  jsd:   P, Q (non-negative integer vectors), v (JSD), vs (swapped), vn       *)
 (*         (inputs rescaled by different factors)                               *)
@@ -27,7 +28,7 @@ StepVerdict(e) ==
          IF ~Close(e.vol1, Pow(e.k, e.dim) * e.vol0, 0, 2 * Pow(e.k, e.dim)) THEN "C18.volume-homogeneous"
          ELSE IF ~Close(e.w1, e.k * e.w0, 0, 2 * e.k) THEN "C18.width-homogeneous" ELSE "ok"
     [] e.op = "addpoint" ->
-         IF e.vol1 < e.vol0 - 2 THEN "C18.volume-monotone"
+         IF e.samedim /\ e.vol1 < e.vol0 - 2 THEN "C18.volume-monotone"      \* a point that raises the affine dimension changes the unit of "volume"
          ELSE IF e.w1 < e.w0 - 2 THEN "C18.width-monotone" ELSE "ok"
     [] OTHER -> "C18.unknown-op"
 
